@@ -1265,8 +1265,39 @@ def container_rules(facts, rep, R3):
         d_ = par.term_of_operand(tt_["d"])
         if d_[0] == "discr" or not any(x[0] == "call" and re.search(r"read_(u8|u16|u32|i32)$", x[1]) for x in walk(d_)):
             continue
-        exits = [v_ for v_, b_ in tt_["targets"] if b_ not in lblocks]
-        if tt_["otherwise"] not in lblocks and not exits:
+        def leaves(b_):
+            """does control, entering block b_, leave the loop through straight-line code and switches on boolean
+            temporaries assigned on the way (`matches!(word, Ok(0))` is such a temporary)?"""
+            known = {}
+            for _ in range(12):
+                if b_ not in lblocks:
+                    return True
+                blk_ = par.blocks[b_]
+                for st_ in blk_["stmts"]:
+                    if st_["k"] == "assign" and not st_["lhs"]["p"]:
+                        a_ = st_["rv"].get("a") if st_["rv"].get("k") == "use" else None
+                        k_ = a_.get("k") if isinstance(a_, dict) else None
+                        if isinstance(k_, dict) and isinstance(k_.get("val"), dict) and k_["val"].get("kind") in ("bool", "int"):
+                            known[st_["lhs"]["l"]] = k_["val"]["v"]
+                        else:
+                            known.pop(st_["lhs"]["l"], None)
+                t_ = blk_["term"]
+                if t_["k"] in ("goto", "drop"):
+                    b_ = t_["t"]
+                elif t_["k"] == "switch":
+                    pl_ = t_["d"].get("m") or t_["d"].get("c")
+                    if not pl_ or pl_["p"] or pl_["l"] not in known:
+                        return False
+                    nb_ = t_["otherwise"]
+                    for v2_, b2_ in t_["targets"]:
+                        if v2_ == known[pl_["l"]]:
+                            nb_ = b2_
+                    b_ = nb_
+                else:
+                    return False
+            return False
+        exits = [v_ for v_, b_ in tt_["targets"] if leaves(b_)]
+        if leaves(tt_["otherwise"]) and not exits:
             exits = ["any other value"]
         if exits:
             rep.violation(R3, par.name, "stops-on-word", "the spec loop ends when a word read from the archive equals %s (`%s`): a spec whose flag word has that value (no optional field present gives 0) is taken for the end of the list, and it and every later spec are dropped" % (
